@@ -231,6 +231,18 @@ pub fn tamper_statement(
         "seed_none" => {
             seed = None;
         },
+        "seed_zero" => {
+            // the zero scalar is a seed like any other (a wrong one for this proof)
+            seed = Some(Scalar::ZERO);
+        },
+        "commitment_shift_h" => {
+            // commitment j moved along the value generator by a concrete amount: together with a promise changed by the same amount
+            // this is ANOTHER true statement (value - by >= promise - by) the proof was not made for
+            let j = spec["j"].as_u64().unwrap() as usize;
+            let by = spec["by"].as_i64().unwrap();
+            let sc = if by >= 0 { Scalar::from(by as u64) } else { -Scalar::from((-by) as u64) };
+            commitments[j] = commitments[j] + *st.generators.h_base() * sc;
+        },
         "seed_topbyte" => {
             // another seed that differs from the original only in its most significant byte
             seed = seed.map(|sd| env::seed_variant_topbyte(&sd, idx));
